@@ -1,0 +1,263 @@
+//go:build verif
+
+// Verification hook of the vmexec engine (build tag "verif", add-only): a
+// built function and everything reachable from it, dumped as plain data, so
+// that an executable model of VM.run can execute the same code.
+
+package runtime
+
+import (
+	"math"
+	"reflect"
+)
+
+// VerifValue describes a constant of the general values table.
+type VerifValue struct {
+	Valid bool
+	Kind  int    // reflect.Kind, 0 if not valid
+	Type  string // reflect type as text
+	Int   int64  // value for bool and integer kinds (uint64 as its int64 bit pattern)
+	Str   string // value for the string kind
+}
+
+// VerifNative describes an entry of Function.NativeFunctions.
+type VerifNative struct {
+	Pkg, Name   string
+	Type        string // reflect type of the function
+	Variadic    bool
+	NumIn       int
+	OutOff      [4]int8
+	ReflectCall bool
+}
+
+// VerifType describes an entry of Function.Types.
+type VerifType struct {
+	Kind int // reflect.Kind
+	Text string
+}
+
+// VerifFunc is a Function as data. Functions holds indexes into the slice
+// returned by VerifDumpFunctions.
+type VerifFunc struct {
+	Pkg, Name  string
+	NumIn      int
+	NumOut     int
+	NumReg     [4]int8
+	Body       [][4]int8 // Op, A, B, C
+	Ints       []int64
+	Floats     []uint64 // IEEE bits
+	Strings    []string
+	Generals   []VerifValue
+	Functions  []int
+	Natives    []VerifNative
+	Types      []VerifType
+	FinalRegs  [][2]int8
+	HasVarRefs bool
+	Macro      bool
+	// OperandKinds[pc] = kinds of the operands A, B, C recorded by the builder
+	// for the instruction at pc (debug information), if any.
+	OperandKinds map[uint32][3]int
+}
+
+// VerifDumpFunctions dumps fn and the functions reachable through the
+// Functions tables. Index 0 is fn itself.
+func VerifDumpFunctions(fn *Function) []VerifFunc {
+	index := map[*Function]int{}
+	var order []*Function
+	var visit func(f *Function) int
+	visit = func(f *Function) int {
+		if i, ok := index[f]; ok {
+			return i
+		}
+		i := len(order)
+		index[f] = i
+		order = append(order, f)
+		for _, g := range f.Functions {
+			if g != nil {
+				visit(g)
+			}
+		}
+		return i
+	}
+	visit(fn)
+	out := make([]VerifFunc, len(order))
+	for i, f := range order {
+		d := VerifFunc{Pkg: f.Pkg, Name: f.Name, NumReg: f.NumReg, Macro: f.Macro, HasVarRefs: f.VarRefs != nil}
+		if f.Type != nil && f.Type.Kind() == reflect.Func {
+			d.NumIn = f.Type.NumIn()
+			d.NumOut = f.Type.NumOut()
+		}
+		for _, in := range f.Body {
+			d.Body = append(d.Body, [4]int8{int8(in.Op), in.A, in.B, in.C})
+		}
+		d.Ints = append(d.Ints, f.Values.Int...)
+		for _, x := range f.Values.Float {
+			d.Floats = append(d.Floats, math.Float64bits(x))
+		}
+		d.Strings = append(d.Strings, f.Values.String...)
+		for _, v := range f.Values.General {
+			d.Generals = append(d.Generals, verifValue(v))
+		}
+		for _, g := range f.Functions {
+			if g == nil {
+				d.Functions = append(d.Functions, -1)
+			} else {
+				d.Functions = append(d.Functions, index[g])
+			}
+		}
+		for _, n := range f.NativeFunctions {
+			if n == nil {
+				d.Natives = append(d.Natives, VerifNative{Name: "<nil>"})
+				continue
+			}
+			vn := VerifNative{Pkg: n.pkg, Name: n.name, OutOff: n.outOff, ReflectCall: n.reflectCall}
+			if n.value.IsValid() && n.value.Kind() == reflect.Func {
+				t := n.value.Type()
+				vn.Type = t.String()
+				vn.Variadic = t.IsVariadic()
+				vn.NumIn = t.NumIn()
+			}
+			d.Natives = append(d.Natives, vn)
+		}
+		for _, t := range f.Types {
+			if t == nil {
+				d.Types = append(d.Types, VerifType{Text: "<nil>"})
+				continue
+			}
+			d.Types = append(d.Types, VerifType{Kind: int(t.Kind()), Text: t.String()})
+		}
+		d.FinalRegs = append(d.FinalRegs, f.FinalRegs...)
+		if len(f.InstructionInfo) > 0 {
+			d.OperandKinds = map[uint32][3]int{}
+			for pc, info := range f.InstructionInfo {
+				k := info.OperandKind
+				if k[0] != 0 || k[1] != 0 || k[2] != 0 {
+					d.OperandKinds[uint32(pc)] = [3]int{int(k[0]), int(k[1]), int(k[2])}
+				}
+			}
+		}
+		out[i] = d
+	}
+	return out
+}
+
+func verifValue(v reflect.Value) VerifValue {
+	if !v.IsValid() {
+		return VerifValue{}
+	}
+	d := VerifValue{Valid: true, Kind: int(v.Kind()), Type: v.Type().String()}
+	switch k := v.Kind(); {
+	case k == reflect.Bool:
+		if v.Bool() {
+			d.Int = 1
+		}
+	case reflect.Int <= k && k <= reflect.Int64:
+		d.Int = v.Int()
+	case reflect.Uint <= k && k <= reflect.Uintptr:
+		d.Int = int64(v.Uint())
+	case k == reflect.String:
+		d.Str = v.String()
+	}
+	return d
+}
+
+// VerifOpcodes maps the name of every Operation constant to its number.
+var VerifOpcodes = map[string]int{
+	"OpNone":          int(OpNone),
+	"OpAdd":           int(OpAdd),
+	"OpAddInt":        int(OpAddInt),
+	"OpAddFloat64":    int(OpAddFloat64),
+	"OpAddr":          int(OpAddr),
+	"OpAnd":           int(OpAnd),
+	"OpAndNot":        int(OpAndNot),
+	"OpAssert":        int(OpAssert),
+	"OpAppend":        int(OpAppend),
+	"OpAppendSlice":   int(OpAppendSlice),
+	"OpBreak":         int(OpBreak),
+	"OpCallFunc":      int(OpCallFunc),
+	"OpCallIndirect":  int(OpCallIndirect),
+	"OpCallMacro":     int(OpCallMacro),
+	"OpCallNative":    int(OpCallNative),
+	"OpCap":           int(OpCap),
+	"OpCase":          int(OpCase),
+	"OpClose":         int(OpClose),
+	"OpComplex64":     int(OpComplex64),
+	"OpComplex128":    int(OpComplex128),
+	"OpConcat":        int(OpConcat),
+	"OpContinue":      int(OpContinue),
+	"OpConvert":       int(OpConvert),
+	"OpConvertInt":    int(OpConvertInt),
+	"OpConvertUint":   int(OpConvertUint),
+	"OpConvertFloat":  int(OpConvertFloat),
+	"OpConvertString": int(OpConvertString),
+	"OpCopy":          int(OpCopy),
+	"OpDefer":         int(OpDefer),
+	"OpDelete":        int(OpDelete),
+	"OpDiv":           int(OpDiv),
+	"OpDivInt":        int(OpDivInt),
+	"OpDivFloat64":    int(OpDivFloat64),
+	"OpField":         int(OpField),
+	"OpGetVar":        int(OpGetVar),
+	"OpGetVarAddr":    int(OpGetVarAddr),
+	"OpGo":            int(OpGo),
+	"OpGoto":          int(OpGoto),
+	"OpIf":            int(OpIf),
+	"OpIfInt":         int(OpIfInt),
+	"OpIfFloat":       int(OpIfFloat),
+	"OpIfString":      int(OpIfString),
+	"OpIndex":         int(OpIndex),
+	"OpIndexString":   int(OpIndexString),
+	"OpIndexRef":      int(OpIndexRef),
+	"OpLen":           int(OpLen),
+	"OpLoad":          int(OpLoad),
+	"OpLoadFunc":      int(OpLoadFunc),
+	"OpMakeArray":     int(OpMakeArray),
+	"OpMakeChan":      int(OpMakeChan),
+	"OpMakeMap":       int(OpMakeMap),
+	"OpMakeSlice":     int(OpMakeSlice),
+	"OpMakeStruct":    int(OpMakeStruct),
+	"OpMapIndex":      int(OpMapIndex),
+	"OpMapIndexAny":   int(OpMapIndexAny),
+	"OpMethodValue":   int(OpMethodValue),
+	"OpMove":          int(OpMove),
+	"OpMul":           int(OpMul),
+	"OpMulInt":        int(OpMulInt),
+	"OpMulFloat64":    int(OpMulFloat64),
+	"OpNeg":           int(OpNeg),
+	"OpNew":           int(OpNew),
+	"OpOr":            int(OpOr),
+	"OpPanic":         int(OpPanic),
+	"OpPrint":         int(OpPrint),
+	"OpRange":         int(OpRange),
+	"OpRangeString":   int(OpRangeString),
+	"OpRealImag":      int(OpRealImag),
+	"OpReceive":       int(OpReceive),
+	"OpRecover":       int(OpRecover),
+	"OpRem":           int(OpRem),
+	"OpRemInt":        int(OpRemInt),
+	"OpReturn":        int(OpReturn),
+	"OpSelect":        int(OpSelect),
+	"OpSend":          int(OpSend),
+	"OpSetField":      int(OpSetField),
+	"OpSetMap":        int(OpSetMap),
+	"OpSetSlice":      int(OpSetSlice),
+	"OpSetVar":        int(OpSetVar),
+	"OpShl":           int(OpShl),
+	"OpShlInt":        int(OpShlInt),
+	"OpShow":          int(OpShow),
+	"OpShr":           int(OpShr),
+	"OpShrInt":        int(OpShrInt),
+	"OpSlice":         int(OpSlice),
+	"OpStringSlice":   int(OpStringSlice),
+	"OpSub":           int(OpSub),
+	"OpSubInt":        int(OpSubInt),
+	"OpSubFloat64":    int(OpSubFloat64),
+	"OpSubInv":        int(OpSubInv),
+	"OpSubInvInt":     int(OpSubInvInt),
+	"OpSubInvFloat64": int(OpSubInvFloat64),
+	"OpTailCall":      int(OpTailCall),
+	"OpText":          int(OpText),
+	"OpTypify":        int(OpTypify),
+	"OpXor":           int(OpXor),
+	"OpZero":          int(OpZero),
+}
